@@ -64,6 +64,9 @@ CHECKS["C08"] = dict(cat="proof", tech=TECH,
 CHECKS["C05"] = dict(cat="proof", tech=TECH,
    text="Contracts on Signal.filter_frequencies, Signal._get_filter_response and FunctionSignal._apply_filters, executed over an abstract array algebra: additivity and homogeneity in the values, homogeneity in the response, identity for the unit response, reading the grid only through its length and spacing, the Hermitian-mirrored response under force_real (vectorised and per-frequency paths, the latter by a loop invariant), passivity and absence of wrap-around for a pure delay.",
    note=PROOF_NOTE + " fft/ifft/real/concatenate/prefix are known to the verifier only through the laws listed in pyvc/absarr.py (A5: assumed, cross-checked numerically against numpy/scipy on every run); obligations the solver leaves open are searched natively for a failing input and stay undecided when none is found.", ref="§5 C05")
+CHECKS["C07"] = dict(cat="proof", tech=TECH,
+   text="Contracts on the field closures of the ZHS and ARZ Askaryan models obtained from the real constructors: same field at plus and minus the viewing angle, inverse-distance scaling, invariance under a joint shift of grid and shower time, whole-sample shifts and energy proportionality on the cone (ARZ on-cone branch, element-wise exact), zero-energy fields, ValueError beyond 180 degrees. The AVZ closure and the off-cone convolution branch of ARZ are outside the executor's subset and are covered by bounded native sampling of the same obligations (labelled B, not proved), as is the peak-on-the-cone clause.",
+   note=PROOF_NOTE + " Mixed level: ZHS and ARZ on-cone obligations are proved for all inputs (fft pipeline through the assumed array laws A5); the AVZ model, the ARZ off-cone branch and amplitude monotonicity are bounded stand-ins by random sampling.", ref="§5 C07")
 NOT_YET = {}
 def main():
     props = [json.loads(l) for l in open(os.path.join(HERE, "properties.jsonl"))]
